@@ -1,7 +1,7 @@
 """C18 Weighted moments, clipping, interpolation and cov/cor follow their definitions."""
 import numpy as np
 
-from vlib import probe
+from vlib import gen, probe
 from vlib.probe import COL
 
 ID = "C18"
@@ -349,7 +349,7 @@ def run_case(case):
         if rng.random() < .3:
             kw["inputmean"] = float(rng.normal())
         COL.sample({"family": fam, "n": n, "kw": kw, "x": x[:5].tolist(), "w": w[:5].tolist()})
-        probe.attempt(st.wmom, x, w, **kw)
+        probe.attempt(st.wmom, gen.maybe_view(rng, x), gen.maybe_view(rng, w), **kw)
     elif fam == "wmom-nd":
         d = int(rng.integers(1, 6))
         x = rng.normal(size=(n, d)) * 10.0 ** rng.integers(-2, 3)
@@ -371,7 +371,7 @@ def run_case(case):
         w = _weights(rng, n)
         if w.sum() == 0:
             w[:] = 1
-        probe.attempt(st.wmedian, x, w)
+        probe.attempt(st.wmedian, gen.maybe_view(rng, x), gen.maybe_view(rng, w))
     elif fam in ("sigma_clip", "sigma_clip-w"):
         n = max(n, 2) if rng.random() < .9 else 1
         x = rng.normal(size=n) * 10.0 ** rng.integers(-2, 3) + rng.choice([0, 50.0])
@@ -389,7 +389,7 @@ def run_case(case):
         COL.sample({"family": fam, "n": n, "kw": {k2: v for k2, v in kw.items() if k2 != "extra"}, "x": x[:5].tolist()})
         if rng.random() < .1:
             x = [float(v) for v in x]
-        probe.attempt(st.sigma_clip, x, weights=w, **kw)
+        probe.attempt(st.sigma_clip, gen.maybe_view(rng, x), weights=gen.maybe_view(rng, w), **kw)
     elif fam == "clip-exact":
         # k zeros plus +-a outliers with k+2j = 2^p and variance a perfect square: data sit exactly ON the threshold
         p = int(rng.integers(3, 7))
@@ -415,7 +415,7 @@ def run_case(case):
         rng.shuffle(x)
         kw = {"nsig": nsig, "niter": int(rng.integers(1, 5)), "get_indices": True, "extra": {}, "silent": True}
         COL.sample({"family": fam, "x": x[:16].tolist(), "nsig": nsig})
-        probe.attempt(st.sigma_clip, x, **kw)
+        probe.attempt(st.sigma_clip, gen.maybe_view(rng, x), **kw)
     elif fam == "interplin":
         npt = int(rng.choice([2, 3, 5, 20, 200]))
         if rng.random() < .5:
@@ -440,7 +440,7 @@ def run_case(case):
         elif r < .3:
             u = u[:int(rng.integers(1, 4))]
         COL.sample({"family": fam, "npt": npt, "x": x[:5].tolist(), "u": np.atleast_1d(u)[:5].tolist()})
-        probe.attempt(st.interplin, v, x, u)
+        probe.attempt(st.interplin, gen.maybe_view(rng, v), gen.maybe_view(rng, x), gen.maybe_view(rng, u) if isinstance(u, np.ndarray) else u)
     elif fam == "get_stats":
         x = rng.normal(size=max(n, 2)) * 10.0 ** rng.integers(-2, 3)
         r = rng.random()
